@@ -1,7 +1,10 @@
 (* Corr/C28.v — TCP correspondence for the start paths (C28).
    The Go driver starts a real server through one public start path, connects a conformant ONC RPC client that uses
    RFC 1831 record marking (written against the RFCs, sharing no code with /repo), sends NULL, MOUNT3 MNT of the
-   export path and NFS3 GETATTR of the returned handle, and records the bytes that came back for each call.
+   export path and NFS3 GETATTR of the returned handle, and records the bytes that came back for each call.  The
+   client delivers its calls in varied TCP segmentations (whole, byte at a time, cut inside the record mark, at the
+   mark/payload boundary, inside the RPC header, as multi-fragment records, as pipelined pairs); the expected
+   outcome is the same for all of them.
    Here the replies are parsed independently of /repo's codecs:
    (1) mismatch: Model/Framing.v's prediction (Refused / Started RecordMarked / Started Raw) against what happened;
    (2) specfail: on a documented path the server starts and all three replies are well-formed accepted replies with
@@ -15,9 +18,12 @@ Record exch := mkExch { x_xid : N; x_raw : list N; x_ioerr : bool }.
 Record case := mkCase {
   c_path : start_path;
   c_mount : string;            (* path sent in MNT *)
+  c_seg : string;              (* how the client cut its calls into TCP pieces / record fragments (informative:
+                                  TCP is a byte stream, the expected outcome does not depend on it) *)
   c_unavailable : bool;        (* the environment could not run this path (port 111 taken): nothing is checked *)
   c_started : bool;            (* the start call returned nil *)
-  c_null : exch; c_mnt : exch; c_getattr : exch }.
+  c_null : exch; c_mnt : exch; c_getattr : exch;
+  c_extra : list exch }.       (* further NULL calls: the second call of a pipelined pair *)
 
 (* ---- byte-level parsing ---- *)
 Definition bytes_ok (l : list N) : bool := forallb (fun b => b <? 256) l.
@@ -102,7 +108,8 @@ Definition getattr_ok (e : exch) : bool :=
       | None => false end | None => false end
   | None => false
   end.
-Definition all_ok (c : case) : bool := null_ok (c_null c) && mnt_ok (c_mnt c) && getattr_ok (c_getattr c).
+Definition all_ok (c : case) : bool :=
+  null_ok (c_null c) && mnt_ok (c_mnt c) && getattr_ok (c_getattr c) && forallb null_ok (c_extra c).
 
 Definition mismatch (c : case) : list (N * N) :=
   if c_unavailable c then [] else
@@ -119,7 +126,8 @@ Definition specfail (c : case) : list (N * N) :=
     (if c_started c then [] else [(0, code_specfail)]) ++
     (if null_ok (c_null c) then [] else [(1, code_specfail)]) ++
     (if mnt_ok (c_mnt c) then [] else [(2, code_specfail)]) ++
-    (if getattr_ok (c_getattr c) then [] else [(3, code_specfail)])
+    (if getattr_ok (c_getattr c) then [] else [(3, code_specfail)]) ++
+    (if forallb null_ok (c_extra c) then [] else [(4, code_specfail)])
   else [].
 Definition check (c : case) : list (N * N) := specfail c ++ mismatch c.
 Definition run (cs : list case) : result := run_cases check cs.
